@@ -346,7 +346,7 @@ func (c *client) setupRequestChan() chan clientRequest {
 	requests := make(chan clientRequest)
 
 	c.doRequest = func(ctx context.Context, cr clientRequest) (clientResponse, error) {
-		vhook("call.enq", nil, "a", cr.ready, "id", cr.req.ID, "method", cr.req.Method)
+		vhook("call.enq", nil, "a", cr.ready, "id", cr.req.ID, "method", cr.req.Method, "q", requests)
 		select {
 		case requests <- cr:
 		case <-c.exiting:
